@@ -162,7 +162,7 @@ INVARIANT Export
     ctx.exhaustive = quick
     for e in scens[::max(1, len(scens) // 3)][:3]:
         ctx.sample({'scenario': e['s'], 'spec_violation': e['v']})
-    ctx.rule = ('every scenario of Violation.tla with n<=%d elements (values {-2,0,1/2,1,5}^n x per-element bound pattern '
+    ctx.rule = ('every scenario of Violation.tla with n<=%d elements (values {-7/2,-2,0,1/2,1,5}^n x per-element bound pattern (incl. negative bounds) '
                 '{none, lower, upper, both} / equality, scalar or array declared x 5 scalings incl. negative scaler and '
                 'ref/ref0 x driver_scaling) executed on a real Problem; non-trivial = distinct scenarios with array '
                 '(element-varying) bounds or driver scaling on' % (2 if quick else 3))
